@@ -1,7 +1,7 @@
 (* HwProofs.v — the hardware semantics (Hw.v) evaluated on what the model emits: one routing decision of an
    emitted router under IdTable routing is the model's table lookup, and the signals of the emitted
    instances lead to the units the compiled port arrays name. *)
-From FV Require Import Base AddrRange RouteMap RouteMapProofs Graph Desc Build Netlist Compile Routing Emit Hw
+From FV Require Import Base AddrRange RouteMap RouteMapProofs Graph Desc Build Netlist Compile Routing Emit Hw Side
      ModelBase BuildProofs Check CheckProofs PathProofs ModelProofs IdProofs.
 From Coq Require Import ZifyBool.
 
@@ -73,10 +73,6 @@ Proof.
   unfold req_name. cbn [fst snd]. intros H. apply (sapp_inj_r ("_to_" +++ v +++ "_req")). exact H.
 Qed.
 
-(* the name of the signal that carries net nt from unit u to unit v *)
-Definition flow (nt : net) (l : link) : string := fst l +++ "_to_" +++ snd l +++ "_" +++ net_name nt.
-Definition net_type (nt : net) : string :=
-  match nt with Req => "floo_req_t" | Rsp => "floo_rsp_t" | Wide => "floo_wide_t" end.
 Lemma flow_req l : flow Req l = req_name l.
 Proof. reflexivity. Qed.
 Lemma flow_rsp l : flow Rsp (rev_link l) = rsp_name l.
@@ -341,7 +337,7 @@ Section HwId.
   (* shortest paths from a router run through routers only *)
   Hypothesis Htransit : forall u p, is_router c u -> sp' u = Some p -> forall x, In x (removelast p) -> is_router c x.
   (* every declared link signal has one driver, one reader and the name of its ends (C05, second half) *)
-  Hypothesis Hwire : forall l, In l (n_links n) -> signal_ok n l.
+  Hypothesis Hwire : forall l, In l (n_links n) -> fst l = net_type nt -> signal_ok n l.
   (* the port index fits the 32-bit field of the table rule *)
   Hypothesis Hdeg : forall r, In r (c_rts c) -> Z.of_nat (length (cr_out r)) <= 2 ^ 32.
 
@@ -359,6 +355,7 @@ Section HwId.
   Lemma out_slot r x k l : In r (c_rts c) -> emit_rt (c_desc c) ri r = Ok x ->
     nth_error (cr_out r) k = Some (Some l) -> nth_error (rt_outs nt x) k = Some [flow nt l].
   Proof.
+    clear Hwire.
     intros Hr Hx Hk. destruct (emitted_rt c ri n He Hnd r Hr) as (x' & Hx' & _ & _ & O1 & _ & O2 & _).
     rewrite Hx in Hx'. inversion Hx'; subst x'. destruct Hnt as [-> | ->]; cbn [rt_outs].
     - rewrite O1. unfold out_sig. rewrite nth_error_map, Hk. reflexivity.
@@ -370,6 +367,7 @@ Section HwId.
     nth_error (rt_ins nt x) i = Some sl -> In (SSig s) sl ->
     exists l, nth_error (cr_in r) i = Some (Some l) /\ s = flow nt l.
   Proof.
+    clear Hwire.
     intros Hr Hx Hi Hs. destruct (emitted_rt c ri n He Hnd r Hr) as (x' & Hx' & _ & _ & _ & I1 & _ & I2).
     rewrite Hx in Hx'. inversion Hx'; subst x'. destruct Hnt as [-> | ->]; cbn [rt_ins] in Hi.
     - rewrite I1 in Hi. unfold in_src in Hi. rewrite nth_error_map in Hi.
@@ -383,6 +381,7 @@ Section HwId.
 
   Lemma link_declared u v : is_link_of g (u, v) -> In (net_type nt, flow nt (u, v)) (n_links n).
   Proof.
+    clear Hwire.
     intros Hl. pose proof (build_ginv d g Hb) as (Hsym & Hends).
     destruct Hnt as [-> | ->]; cbn [net_type].
     - apply (emitted_links c ri n He u v); rewrite Hcg; assumption.
@@ -423,7 +422,7 @@ Section HwId.
     all: set (s := flow nt (cr_name r, nxt)).
     (* the signal is declared, so it has one driver and one reader *)
     all: pose proof (link_declared _ _ Hlink) as Hdecl; fold s in Hdecl.
-    all: destruct (Hwire _ Hdecl) as (nt' & dd & u & Hnt' & Hdrv & Hrd & Hnm); cbn [fst snd] in Hnt', Hdrv, Hrd, Hnm.
+    all: destruct (Hwire _ Hdecl eq_refl) as (nt' & dd & u & Hnt' & Hdrv & Hrd & Hnm); cbn [fst snd] in Hnt', Hdrv, Hrd, Hnm.
     all: assert (nt' = nt) by (destruct Hnt as [-> | ->]; cbv in Hnt'; congruence); subst nt'.
     all: assert (Hxin : In x (n_rts n)) by (apply find_some in Hfind; tauto).
     all: assert (Hdd : dd = URt (cr_name r) k1) by
@@ -530,6 +529,7 @@ Section HwId.
   Lemma attach_link x : In x (c_nis c) -> fst (attach x) = cn_name x /\ is_link_of g (attach x) /\
     ni_out nt (emit_ni d (ri_offset ri) x) = Some (flow nt (attach x)).
   Proof.
+    clear Hwire.
     intros Hx. destruct (compile_ni_links x Hx) as (M1 & M2 & S1 & S2). unfold attach.
     destruct Hnt as [-> | ->].
     - split; [exact M1|]. split; [exact M2|]. reflexivity.
@@ -553,7 +553,7 @@ Section HwId.
     unfold send. rewrite Hout.
     set (s := flow nt (cn_name s0, r0)).
     pose proof (link_declared _ _ Hlink) as Hdecl. fold s in Hdecl.
-    destruct (Hwire _ Hdecl) as (nt' & dd & u & Hnt' & Hdrv & Hrd & Hnm); cbn [fst snd] in Hnt', Hdrv, Hrd, Hnm.
+    destruct (Hwire _ Hdecl eq_refl) as (nt' & dd & u & Hnt' & Hdrv & Hrd & Hnm); cbn [fst snd] in Hnt', Hdrv, Hrd, Hnm.
     assert (nt' = nt) by (destruct Hnt as [-> | ->]; cbv in Hnt'; congruence); subst nt'.
     (* the interface itself drives the signal *)
     assert (Hdd : dd = UNi (cn_name s0)).
@@ -627,7 +627,7 @@ Proof.
            (bound g)
            (fun s p H => sp_ref_bound g (cn_name t) s p H)
            (fun s q Hq Hl => sp_ref_complete g (cn_name t) s q Hq Hl) Htr
-           (proj2 (chk_C05_sound n Hchk)) Hdeg).
+           (fun l Hl _ => proj2 (chk_C05_sound n Hchk) l Hl) Hdeg).
 Qed.
 
 (* ------------------------------------------------------------------ shortest paths are simple *)
@@ -673,7 +673,7 @@ Section HwSrc.
   Hypothesis He : emit c ri = Ok n.
   Hypothesis Ht : In t (c_nis c).
   Let tname := cn_name t.
-  Hypothesis Hwire : forall l, In l (n_links n) -> signal_ok n l.
+  Hypothesis Hwire : forall l, In l (n_links n) -> fst l = net_type nt -> signal_ok n l.
 
   Let Hnd : NoDup (map cr_name (c_rts c)) := built_router_names_nodup d g c Hb Hc.
 
@@ -732,7 +732,7 @@ Section HwSrc.
         assert (Hl' : exists e0, In e0 (g_edges (c_graph c)) /\ is_link e0 = true /\ e_src e0 = b /\ e_dst e0 = cr_name r).
         { rewrite Hcg. exists e'. repeat split; auto; congruence. }
         apply (emitted_links c ri n He b (cr_name r) Hl'). rewrite Hcg. exact Hends. }
-    destruct (Hwire _ Hdecl) as (nt' & dd & u & Hnt' & Hdrv & Hrd & Hnm); cbn [fst snd] in Hnt', Hdrv, Hrd, Hnm.
+    destruct (Hwire _ Hdecl eq_refl) as (nt' & dd & u & Hnt' & Hdrv & Hrd & Hnm); cbn [fst snd] in Hnt', Hdrv, Hrd, Hnm.
     assert (nt' = nt) by (destruct Hnt as [-> | ->]; cbv in Hnt'; congruence); subst nt'.
     assert (Hxin : In x (n_rts n)) by (apply find_some in Hfind; tauto).
     assert (Hdd : dd = URt (cr_name r) k1).
@@ -818,7 +818,7 @@ Section HwSrcSend.
   Hypothesis Ht : In t (c_nis c).
   Let tname := cn_name t.
   Let gedge (u v : string) : Prop := exists e, In e (g_edges g) /\ e_src e = u /\ e_dst e = v.
-  Hypothesis Hwire : forall l, In l (n_links n) -> signal_ok n l.
+  Hypothesis Hwire : forall l, In l (n_links n) -> fst l = net_type nt -> signal_ok n l.
   Let Hnd : NoDup (map cr_name (c_rts c)) := built_router_names_nodup d g c Hb Hc.
   Let Hcd : c_desc c = d := proj1 (compile_desc d g c Hc).
   Let Hcg : c_graph c = g := proj2 (compile_desc d g c Hc).
@@ -843,7 +843,7 @@ Section HwSrcSend.
         assert (Hl' : exists e0, In e0 (g_edges (c_graph c)) /\ is_link e0 = true /\ e_src e0 = r0 /\ e_dst e0 = cn_name s0).
         { rewrite Hcg. exists e'. repeat split; auto; congruence. }
         apply (emitted_links c ri n He r0 (cn_name s0) Hl'). rewrite Hcg. exact Hends. }
-    destruct (Hwire _ Hdecl) as (nt' & dd & u & Hnt' & Hdrv & Hrd & Hnm); cbn [fst snd] in Hnt', Hdrv, Hrd, Hnm.
+    destruct (Hwire _ Hdecl eq_refl) as (nt' & dd & u & Hnt' & Hdrv & Hrd & Hnm); cbn [fst snd] in Hnt', Hdrv, Hrd, Hnm.
     assert (nt' = nt) by (destruct Hnt as [-> | ->]; cbv in Hnt'; congruence); subst nt'.
     assert (Hdd : dd = UNi (cn_name s0)).
     { assert (Hin : In (UNi (cn_name s0)) (drivers n nt s)).
@@ -965,6 +965,6 @@ Proof.
   intros Hnt Hb Hc Hri He Ha Ht Hchk s0 id ps p Hs0 Hgr Hsp Hatt.
   assert (Hcd : c_desc c = d) by apply (compile_desc d g c Hc).
   rewrite (hdr_of_word_fits sp_reference c ri n s0 t id ps ltac:(rewrite Hcd; exact Ha) Hri He Hs0 Ht Hgr).
-  apply (hw_src_send sp_reference d g c ri n t nt Hnt Hb Hc He Ht (proj2 (chk_C05_sound n Hchk)) s0 id ps p Hs0 Hgr Hsp); [|exact Hatt].
+  apply (hw_src_send sp_reference d g c ri n t nt Hnt Hb Hc He Ht (fun l Hl _ => proj2 (chk_C05_sound n Hchk) l Hl) s0 id ps p Hs0 Hgr Hsp); [|exact Hatt].
   split; [exact (sp_ref_path g (cn_name t) _ _ Hsp)|]. intros q Hq. exact (sp_ref_min g (cn_name t) _ _ q Hsp Hq).
 Qed.
